@@ -251,12 +251,14 @@ for kind, what in C02_KINDS:
                 bound="one operation from the concrete state (len=%d,pos=%d) of the small build (STEP=8, MAX=32)" % (L, P),
                 role=kind)
 SEND_KINDS = ["send_call of Call<Empty> with 3 symbolic flags", "send_reply of Reply<()> with symbolic continues", "send_error of an empty error object"]
-for (L, P) in ((8, 0), (16, 9), (32, 13), (32, 30), (24, 24), (32, 14)):
+# send_* = `enqueue; flush().await` (a 2-deep nest). In the small build (grow-and-retry loop in the formula) symbolic execution does
+# not finish in 20 min; in the 128/128 build (no growth) it does, like Chain::send in C06.
+for (L, P) in ((128, 0), (128, 20), (128, 110)):
     for kind in range(3):
-        add("C02", "p02::send_%s_l%d_p%02d" % (["call", "reply", "error"][kind], L, P), Q if (L, P, kind) in ((8, 0, 1), (32, 30, 0)) else T, 1500, 12, est_gb=8,
-            body="crate::p02::send_kind_at::<%d, %d, %d>" % (L, P, kind), unwind=74,
+        add("C02", "p02::send_%s_l%d_p%03d" % (["call", "reply", "error"][kind], L, P), Q if (P, kind) == (20, 1) else T, 1500, 12, est_gb=8, build="mid",
+            body="crate::p02::send_kind_at::<%d, %d, %d>" % (L, P, kind), unwind=130,
             inputs="write buffer len=%d, fill position=%d (concrete); %s" % (L, P, SEND_KINDS[kind]),
-            bound="one send (enqueue + flush, a 2-deep coroutine nest) from the concrete state, small build", role="send_kind_at")
+            bound="one send (enqueue + flush, a 2-deep coroutine nest) from the concrete state, 128/128 build", role="send_kind_at")
 add("C02", "p02::write_init", Q, 300, 4, inputs="none (initial state of the induction)", bound="Connection::new", unwind=4)
 
 
@@ -283,6 +285,7 @@ c03("ser_float_finite_f64", T, 26, "every finite f64 bit pattern; ryu::Buffer::f
 c03("ser_shape_scalars", Q, 5, "bool / unit / unit struct / Option<u8> / newtype struct / Option<()> with symbolic leaves")
 c03("ser_shape_products", Q, 19, "tuple / tuple struct / struct{a:u8,b:bool} with symbolic leaves")
 c03("ser_shape_enum", Q, 17, "unit / newtype / tuple / struct enum variant, symbolic choice and leaves")
+c03("ser_shape_empty", Q, 40, "empty struct / tuple struct / struct variant / tuple variant and a struct or struct variant whose Option fields are skipped (symbolic), each followed by a sibling in an enclosing tuple", timeout=2400)
 c03("ser_shape_seq", T, 9, "slice of u8 with symbolic length 0..=2")
 c03("ser_shape_seq_str", T, 19, "slice of two 1-byte ASCII strings, symbolic length 0..=2")
 c03("ser_shape_map", T, 27, "map with 0..=2 entries, u8 keys, bool values, length hint present or not")
